@@ -26,6 +26,28 @@ namespace tbox {
 namespace http {
 namespace server {
 
+namespace {
+//! 解析 Content-Length 的值：只接受不超出范围的十进制数字
+bool ParseContentLength(const std::string &str, size_t &value)
+{
+    if (str.empty())
+        return false;
+
+    size_t result = 0;
+    for (char c : str) {
+        if (c < '0' || c > '9')
+            return false;
+        size_t digit = c - '0';
+        //! max() 保留用于表示"未指定 Content-Length"
+        if (result > (std::numeric_limits<size_t>::max() - 1 - digit) / 10)
+            return false;
+        result = result * 10 + digit;
+    }
+    value = result;
+    return true;
+}
+}
+
 RequestParser::~RequestParser()
 {
     CHECK_DELETE_RESET_OBJ(sp_request_);
@@ -132,8 +154,13 @@ size_t RequestParser::parse(const void *data_ptr, size_t data_size)
             auto head_value = util::string::Strip(str.substr(head_value_start_pos, head_value_end_pos - head_value_start_pos));
             sp_request_->headers[head_key] = head_value;
 
-            if (head_key == "Content-Length")
-                content_length_ = std::stoi(head_value);
+            if (head_key == "Content-Length") {
+                //! 非法的 Content-Length（非数字、负数、超出范围）按解析失败处理，而不是抛异常
+                if (!ParseContentLength(head_value, content_length_)) {
+                    state_ = State::kFail;
+                    return pos;
+                }
+            }
 
             pos = end_pos + 2;
         }
